@@ -875,6 +875,14 @@ class Interp(ExprMixin, StmtMixin):
             recv = ZV(as_v(recv), "set")
         return self._writeback(bm, ZV(L.set_add(recv.term, as_v(args[0])), recv.tag))
 
+    def m_difference(self, recv, args, kwargs, bm, node):
+        """set.difference(iterable): a new set (membership view); the receiver is unchanged."""
+        if isinstance(recv, PySeq) and recv.kind == "set":
+            recv = ZV(as_v(recv), "set")
+        if not (isinstance(recv, ZV) and (base_tag(recv.tag) or "").lower().startswith("set")) or len(args) != 1:
+            raise Unsupported("difference on %r (line %s)" % (recv, getattr(node, "lineno", "?")))
+        return ZV(L.set_diff(recv.term, self.seq_of(args[0]).term), recv.tag)
+
     def m_update(self, recv, args, kwargs, bm, node):
         """set.update(iterable) on a locally held set (membership view)."""
         if isinstance(recv, PySeq) and recv.kind == "set":
